@@ -283,22 +283,61 @@ func ruleR7(p *Prog, r *Report) {
 				n++
 				v := canon(ret.Results[i])
 				cons := fmt.Sprintf("returned-storable:%s:result%d", p.Name(f), i)
-				good := false
-				if isNilConst(v) {
-					good = true
-				}
-				if ex, ok := v.(*ssa.Extract); ok && ex.Index == 0 {
-					if c, ok := ex.Tuple.(*ssa.Call); ok && c.Call.StaticCallee() != nil && c.Call.StaticCallee().Name() == "uninlineStorableIfNeeded" {
-						good = true
+				var goodVal func(fn *ssa.Function, v ssa.Value, at *ssa.BasicBlock, depth int) bool
+				goodVal = func(fn *ssa.Function, v ssa.Value, at *ssa.BasicBlock, depth int) bool {
+					v = canon(v)
+					if depth > 3 {
+						return false
 					}
-				}
-				if !good {
+					if isNilConst(v) {
+						return true
+					}
+					if ex, ok := v.(*ssa.Extract); ok && ex.Index == 0 {
+						if c, ok := ex.Tuple.(*ssa.Call); ok && c.Call.StaticCallee() != nil {
+							g := c.Call.StaticCallee()
+							if g.Name() == "uninlineStorableIfNeeded" {
+								return true
+							}
+							// a private helper of the handle that hands back what uninlineStorableIfNeeded returned
+							if g.Pkg == p.RootSSA && len(g.Blocks) > 0 && g.Object() != nil && !g.Object().Exported() {
+								all, any := true, false
+								for _, gr := range returnsOf(g) {
+									if cl, _ := classifyReturn(gr); cl == retError || len(gr.Results) == 0 {
+										continue
+									}
+									any = true
+									if !goodVal(g, gr.Results[0], gr.Block(), depth+1) {
+										all = false
+									}
+								}
+								if any && all {
+									return true
+								}
+							}
+						}
+					}
 					// the element was overwritten with itself: nothing was detached (identity test between the
 					// stored element and the caller's value on a dominating true edge)
-					if b, edge := sameContainerTest(f, v); b != nil && edge >= 0 && edgeDominates(b, edge, ret.Block()) {
-						good = true
+					if b, edge := sameContainerTest(fn, v); b != nil && edge >= 0 && edgeDominates(b, edge, at) {
+						return true
 					}
+					// single exit: every way into the join is one of the above
+					if ph, ok := v.(*ssa.Phi); ok {
+						for i, e := range ph.Edges {
+							pred := ph.Block().Preds[i]
+							// the join is entered straight from the "same container" edge of the identity test
+							if b, edge := sameContainerTest(fn, e); b != nil && edge >= 0 && b == pred && pred.Succs[edge] == ph.Block() && pred.Succs[1-edge] != ph.Block() {
+								continue
+							}
+							if !goodVal(fn, e, pred, depth+1) {
+								return false
+							}
+						}
+						return len(ph.Edges) > 0
+					}
+					return false
 				}
+				good := goodVal(f, v, ret.Block(), 0)
 				r.Decide(good, R, cons, p.InstrPos(ret), "returned storable is the result of uninlineStorableIfNeeded (or the element was overwritten with itself)",
 					"a storable detached from the container is returned without uninlineStorableIfNeeded: an inlined child would exist in no register and later changes to it would be lost")
 			}
